@@ -79,13 +79,56 @@ pub fn model_key(f: &FieldSel, ambiguous: bool) -> String {
     s
 }
 
-/// Root cause of a collision between two different selections with equal keys.
+/// Injectively rewrite the characters of `class` in a text as `Q<hex>Q` (a literal `Q` becomes
+/// `QQ`), so that the result contains none of them and stays a legal name.
+fn escape_class(text: &str, class: &dyn Fn(char) -> bool) -> String {
+    let mut out = String::new();
+    for c in text.chars() {
+        if c == 'Q' {
+            out.push_str("QQ");
+        } else if class(c) {
+            out.push_str(&format!("Q{:x}Q", c as u32));
+        } else {
+            out.push(c);
+        }
+    }
+    out
+}
+
+fn rewrite_texts(f: &FieldSel, names: &dyn Fn(&str) -> String, strings: &dyn Fn(&str) -> String) -> FieldSel {
+    fn val(v: &Val, names: &dyn Fn(&str) -> String, strings: &dyn Fn(&str) -> String) -> Val {
+        match v {
+            Val::Var(n) => Val::Var(names(n)),
+            Val::Enum(n) => Val::Enum(names(n)),
+            Val::Str(s) => Val::Str(strings(s)),
+            Val::Obj(e) => Val::Obj(e.iter().map(|(k, v)| (names(k), val(v, names, strings))).collect()),
+            other => other.clone(),
+        }
+    }
+    FieldSel { name: names(&f.name), linked: f.linked, args: f.args.iter().map(|(k, v)| (names(k), val(v, names, strings))).collect() }
+}
+
+/// Root cause of a collision between two different selections with equal keys, decided with the
+/// compiler itself: the texts of both selections are rewritten injectively so that they no longer
+/// contain (1) non-word characters in strings, (2) underscores anywhere, (3) either; the first
+/// rewriting under which the compiler gives the two selections different keys names the cause.
+/// A collision that survives all three is not one of the recorded root causes.
 pub fn collision_signature(a: &FieldSel, b: &FieldSel) -> &'static str {
-    if model_key(a, false) != model_key(b, false) {
+    let nonword = |c: char| !(c.is_ascii_alphanumeric() || c == '_');
+    let underscore = |c: char| c == '_';
+    let either = |c: char| c == '_' || !c.is_ascii_alphanumeric();
+    let id = |s: &str| s.to_string();
+    let resolved = |names: &dyn Fn(&str) -> String, strings: &dyn Fn(&str) -> String| {
+        let (a2, b2) = (rewrite_texts(a, names, strings), rewrite_texts(b, names, strings));
+        matches!((compiler_key(&a2), compiler_key(&b2)), (Ok(x), Ok(y)) if x != y)
+    };
+    if resolved(&id, &|s| escape_class(s, &nonword)) {
+        return "collision:non-word-char-in-string";
+    }
+    if resolved(&|s| escape_class(s, &underscore), &|s| escape_class(s, &underscore)) {
         return "collision:separator-in-text";
     }
-    let norm = |f: &FieldSel| f.map_leaves(&mut |v| if let Val::Str(s) = v { Val::Str(map_nonword(s)) } else { v.clone() });
-    if norm(a).same_selection(&norm(b)) {
+    if resolved(&|s| escape_class(s, &underscore), &|s| escape_class(s, &either)) {
         return "collision:non-word-char-in-string";
     }
     "collision:other"
